@@ -109,8 +109,8 @@ PROPS = {
         level="fault_enumeration",
         rule="rapid histories against a real controller with refresh period 1-5 ms and gated lists on the fake API server: per case 2-8 relists, each preceded by generated server changes (5 keys, labels moving objects across the controller filter) and overlapped by changes made while the list is in flight; the snapshot returned is the one taken at call or at release (generated); watch mode in {never connects, faithful, faulty: per-session generated plans of status / bookmark / unknown-type frames, dropped and duplicated events, stream closes, connect errors}; controller filter from a 6-element family. The Watch call at the list's resourceVersion is held by the fake until the cache has been inspected. Oracle: per key, cache value in Allowed(k) (see c03_test.go), cached objects satisfy the filter, the unfiltered subscriber's strict mirror converges to the cache while the Watch is held, and after the history stops one further relist yields exact equality with the server's accepted objects. Non-trivial = >= 3 completed relists, at least one changing the cache, and a fault / in-flight event / dead watch; distinct = hash of history.",
         assumptions=["relist completion is observed without hooks as the Watch(resourceVersion = list RV) call that follows cache.sync and event distribution", "Allowed(k) is a superset of the reachable outcomes (dropped events are treated as deliverable): never a false alarm, may accept an outcome a stricter oracle would refuse"],
-        quick=[J("TestC03_Relists", checks=250, shards=8, procs=[2, 4, 8, 16]), J("TestC03_Backlog", checks=30, shards=6, procs=[2, 4, 16, 1, 8, 2])],
-        thorough=[J("TestC03_Relists", checks=8000, shards=16, procs=[1, 2, 4, 8, 16], timeout=2400), J("TestC03_Backlog", checks=800, shards=12, procs=[1, 2, 4, 8, 16], timeout=2400)],
+        quick=[J("TestC03_Relists", checks=250, shards=8, procs=[2, 4, 8, 16]), J("TestC03_Backlog", checks=30, shards=6, procs=[2, 4, 16, 1, 8, 2]), J("TestC03_RelistAfterReconnect", checks=2, shards=12, par=32, shrink="5s")],
+        thorough=[J("TestC03_Relists", checks=8000, shards=16, procs=[1, 2, 4, 8, 16], timeout=2400), J("TestC03_Backlog", checks=800, shards=12, procs=[1, 2, 4, 8, 16], timeout=2400), J("TestC03_RelistAfterReconnect", checks=20, shards=32, par=64, shrink="5s", timeout=2400)],
     ),
     "C16": dict(
         level="exploration",
@@ -207,8 +207,8 @@ PROPS = {
         rule="pairs of filter terms (all constructors incl. typed workload filters, depth <= 3): rapid pairs biased to 'same constructor, nearby / permuted / rebuilt arguments', plus all ordered pairs of enumerated depth<=1 terms; for every pair reported equal by FiltersEqual or Equals the real Accept of both sides is compared on the whole 250+ object universe. Non-trivial = the pair is reported equal (the only cases in which soundness can fail); distinct = distinct rendering of the ordered pair.",
         assumptions=["soundness is judged on the finite object universe (3 ns x 3 names x 16 label maps of pods, pods with node names, services with selectors, events, two foreign kinds)",
                      "workload sources have distinct namespace/name, as in a real cluster"],
-        quick=[J("TestC17_Random", checks=30000), J("TestC17_Enum"), J("TestC17_LabelSets")],
-        thorough=[J("TestC17_Random", checks=200000, shards=16), J("TestC17_Enum", shards=16, timeout=1800), J("TestC17_LabelSets", shards=4), J("FuzzC17", fuzztime="60s", timeout=600)],
+        quick=[J("TestC17_Random", checks=30000), J("TestC17_Enum"), J("TestC17_LabelSets"), J("TestC17_NSNameSets")],
+        thorough=[J("TestC17_Random", checks=200000, shards=16), J("TestC17_Enum", shards=16, timeout=1800), J("TestC17_LabelSets", shards=4), J("TestC17_NSNameSets", shards=2), J("FuzzC17", fuzztime="60s", timeout=600)],
     ),
     "C18": dict(
         level="exploration",
